@@ -4,31 +4,37 @@
    insert/update : dir, name, tok (hash of the entry as written), err
    delete        : dir, name, err
    deltree       : dir, err                       (DeleteFolderChildren)
-   snap          : finds [dir, name, found, got, err], lists [dir, api, items [n, got], err] *)
+   snap          : finds [dir, name, found, got, txt, err], lists [dir, api, items [n, got, txt], err] *)
 EXTENDS MetaStore, TraceKit
-tvars == <<vars, kitvars>>
-TraceInit == Init /\ KitInit
-TraceReset == IsReset /\ kv' = <<>> /\ UNCHANGED hist
-TraceSkip == SkipStep /\ UNCHANGED vars
+(* wrapped: the store is used through FilerStoreWrapper, whose contract is that
+   chunk file ids come back in text form (txt = every chunk of the entry read
+   back names its blob, and its source, by text) *)
+VARIABLE wrapped
+tvars == <<vars, wrapped, kitvars>>
+TraceInit == Init /\ wrapped = FALSE /\ KitInit
+TraceReset == IsReset /\ kv' = <<>> /\ wrapped' = (Ev.via # "direct") /\ UNCHANGED hist
+TraceSkip == SkipStep /\ UNCHANGED <<vars, wrapped>>
 P(e) == <<e.dir, e.name>>
 TInsert == /\ IsEvent("insert") /\ Strict
            /\ IF Ev.err = "" THEN Insert(P(Ev), Ev.tok) ELSE Failed
-           /\ UNCHANGED hist
+           /\ UNCHANGED <<hist, wrapped>>
 TUpdate == /\ IsEvent("update") /\ Strict
            /\ IF Ev.err = "" THEN Update(P(Ev), Ev.tok) ELSE Failed
-           /\ UNCHANGED hist
+           /\ UNCHANGED <<hist, wrapped>>
 TDelete == /\ IsEvent("delete") /\ Strict
            /\ Ev.err = "" /\ Delete(P(Ev))
-           /\ UNCHANGED hist
+           /\ UNCHANGED <<hist, wrapped>>
 TDelTree == /\ IsEvent("deltree") /\ Strict
             /\ Ev.err = "" /\ DeleteChildren(Ev.dir)
-            /\ UNCHANGED hist
+            /\ UNCHANGED <<hist, wrapped>>
 TSnap == /\ IsEvent("snap") /\ Strict
          /\ \A i \in 1..Len(Ev.finds) :
-              LET f == Ev.finds[i] IN f.err = "" /\ FindAnswer(<<f.dir, f.name>>, f.found, f.got)
+              LET f == Ev.finds[i] IN /\ f.err = "" /\ FindAnswer(<<f.dir, f.name>>, f.found, f.got)
+                                      /\ (wrapped /\ f.found) => f.txt
          /\ \A i \in 1..Len(Ev.lists) :
-              LET g == Ev.lists[i] IN g.err = "" /\ ListAnswer(g.dir, g.items)
-         /\ UNCHANGED vars
+              LET g == Ev.lists[i] IN /\ g.err = "" /\ ListAnswer(g.dir, g.items)
+                                      /\ wrapped => \A k \in 1..Len(g.items) : g.items[k].txt
+         /\ UNCHANGED <<vars, wrapped>>
 TraceNext == TraceReset \/ TraceSkip \/ TInsert \/ TUpdate \/ TDelete \/ TDelTree \/ TSnap
 TraceSpec == TraceInit /\ [][TraceNext]_tvars
 =============================================================================
